@@ -2,3 +2,9 @@
 import Iodata.Model.Fmt.Xyz
 import Iodata.Model.Fmt.Sdf
 import Iodata.Model.Fmt.Pdb
+import Iodata.Model.Fmt.Fchk
+import Iodata.Model.Fmt.Cube
+import Iodata.Model.Fmt.Mol2
+import Iodata.Model.Fmt.Fcidump
+import Iodata.Model.Fmt.Poscar
+import Iodata.Model.Fmt.Gro
